@@ -169,3 +169,7 @@ def run(ctx):
     ctx.guard(c02.r02_3)
     # ... and no O(h^1.5) bias per step from a one-sided difference quotient (global strong order would be 1/2)
     ctx.guard(c02.r02_5)
+    # the hypotheses of the fundamental theorem of mean-square convergence, decided for a generic scalar SDE:
+    # local mean-square error O(h^(p+1/2)) and local mean error O(h^(p+1)) at the advertised p (sufficient for strong
+    # order p when d = m = 1 and the coefficients are smooth and Lipschitz)
+    ctx.guard(c02.r02_6)
